@@ -28,6 +28,16 @@ def reserved_names():
     raise ValueError("RESERVED_NAMES = frozenset([...]) not found in gapic/utils/reserved_names.py")
 
 
+def imported_module_names():
+    """IMPORTED_MODULE_NAMES of gapic/utils/reserved_names.py ([] when the tree does not have it)."""
+    for n in _parse("gapic/utils/reserved_names.py").body:
+        if isinstance(n, ast.Assign) and any(isinstance(t, ast.Name) and t.id == "IMPORTED_MODULE_NAMES" for t in n.targets):
+            c = n.value
+            if isinstance(c, ast.Call) and getattr(c.func, "id", "") == "frozenset" and len(c.args) == 1:
+                return sorted(set(_strs(c.args[0])))
+    return []
+
+
 def transport_unsafe():
     t = _parse("gapic/schema/wrappers.py")
     for cls in [n for n in t.body if isinstance(n, ast.ClassDef) and n.name == "Method"]:
